@@ -315,7 +315,11 @@ func exploreOnce(prop string, sc *Scenario, cfg ExploreCfg, res *Result, sites m
 			// reported as such; otherwise it is an internal error, never a verdict.
 			fs := append(sc.Check(st1, e1), sc.Check(st2, e2)...)
 			if len(fs) == 0 {
-				vsched.InternalError("scenario %s is not deterministic under the default schedule:\n%v\n%v", sc.Name, e1.TraceLog, e2.TraceLog)
+				// nothing to report about these two executions, and nothing further can be explored
+				// soundly (prefix replay needs determinism): the scenario is skipped and the evidence says so
+				res.Capped = append(res.Capped, fmt.Sprintf("%s: skipped - the default schedule run twice gave two different executions (the code under test keeps state between executions); no oracle objected to either", sc.Name))
+				fmt.Fprintf(os.Stderr, "NONDETERMINISM scenario %s cfg=%s\n", sc.Name, raw)
+				return nil
 			}
 			seenSig := map[string]bool{}
 			for _, f := range fs {
@@ -357,7 +361,12 @@ func exploreOnce(prop string, sc *Scenario, cfg ExploreCfg, res *Result, sites m
 			runtime.GC()
 		}
 		if d := ex.Divergence(); d != "" {
-			vsched.InternalError("scenario %s: %s (prefix %v)", sc.Name, d, it.prefix)
+			// a recorded prefix no longer fits: the code under test is history dependent; what was
+			// explored so far stands, the rest of this scenario is given up (reported as a cap)
+			res.Capped = append(res.Capped, fmt.Sprintf("%s: exploration abandoned - %s (executions are history dependent)", sc.Name, d))
+			fmt.Fprintf(os.Stderr, "NONDETERMINISM scenario %s: %s\n", sc.Name, d)
+			complete = false
+			break
 		}
 		res.Execs++
 		res.Steps += ex.Steps()
